@@ -15,7 +15,7 @@ MOD = 'fedjax.core.client_datasets'
 GLOBAL_RNG_OK = {'numpy.random.RandomState', 'numpy.random.default_rng', 'numpy.random.Generator', 'numpy.random.SeedSequence'}
 
 
-def run(check: Check):
+def run(check: Check, with_flags: bool = True):
   repo = check.repo
   check.rule('R-SEED', 'the generator used by ShuffleRepeatBatchView.__iter__ is a fresh np.random.RandomState(self._seed) created '
              'inside __iter__; no module of fedjax/core calls a global numpy / random module RNG function')
@@ -55,7 +55,8 @@ def run(check: Check):
   if ok_arange:
     ok_arange = len([d for ds in ff.rd.defs_at.values() for d in ds if d.name == BUF]) == 1
   _index_dtype(check, fi, ff, buf_defs)
-  _flags(check)
+  if with_flags:
+    _flags(check)
   writes = []
   for n in ff.cfg.nodes:
     if n.ast is None:
